@@ -37,6 +37,12 @@ def cases_(draw):
     pkg = draw(gen_dump.dump_package(sort_fields=alpha, max_rows=6))
     if gen.rare(draw, 120):
         gen_dump.per_resource_formats(draw, pkg, opts)  # force_format=False: the format each path names
+    elif gen.rare(draw, 80):
+        # the Excel writer (a format that writes its file by name): plain cell types only
+        opts['format'] = 'excel'
+        pkg = draw(gen_dump.dump_package(sort_fields=True, max_rows=6, types=['string', 'integer', 'boolean']))
+        for r in pkg:
+            r.pop('res_extra', None)
     # 're-dump': the incoming descriptor already carries counters of an earlier dump (load -> process -> dump)
     stale = gen.rare(draw, 200)
     # the dumper's validator may be told to drop invalid rows: counters describe what was written
@@ -101,6 +107,25 @@ def invalid_tables(pkg):
     return out
 
 
+def xlsx_rows(store, wr):
+    """(data rows, raw bytes) of an xlsx data file: the first sheet, minus its header line."""
+    import io
+    import openpyxl
+    path = wr['path']
+    if not store.exists(path):
+        raise decode.DecodeError('file %r listed in the descriptor does not exist' % path)
+    raw = store.read(path)
+    try:
+        wb = openpyxl.load_workbook(io.BytesIO(raw), read_only=True)
+        lines = list(wb.worksheets[0].iter_rows(values_only=True))
+        wb.close()
+    except Exception as e:
+        raise decode.DecodeError('xlsx file %r cannot be opened: %r' % (path, e))
+    if not lines:
+        raise decode.DecodeError('xlsx file %r has no header line' % path)
+    return lines[1:], raw
+
+
 def check(case, ctx):
     pkg, opts = case['pkg'], case['opts']
     classes = ['fmt:' + (opts['format'] if opts.get('force_format', True) else 'per-resource'), 'dumper:' + opts['dumper']] + (['re-dump'] if case.get('stale_counters') else []) + [
@@ -135,7 +160,10 @@ def check(case, ctx):
             res_hashes = []
             for r, wr in zip(pkg, wd['resources']):
                 try:
-                    rows, raw = decode.decode_resource(store, wr)
+                    if opts['format'] == 'excel':
+                        rows, raw = xlsx_rows(store, wr)
+                    else:
+                        rows, raw = decode.decode_resource(store, wr)
                 except decode.DecodeError as e:
                     sig = 'path:file-missing' if 'does not exist' in str(e) else 'file-undecodable'
                     raise Violation(sig, {'resource': r['name'], 'error': str(e)[:300], 'listing': store.listing()[:8]})
@@ -197,8 +225,12 @@ def check(case, ctx):
         finally:
             store.close()
     if hashes[0][0] != hashes[1][0]:
-        raise Violation('resource-hash-differs-between-identical-dumps', {'first': hashes[0][0], 'second': hashes[1][0]})
-    if hashes[0][1] != hashes[1][1]:
+        if opts['format'] == 'excel':
+            pending.append(Violation('identical-dumps-differ:xlsx-files-embed-their-creation-time',
+                                     {'first': hashes[0][0], 'second': hashes[1][0]}))
+        else:
+            raise Violation('resource-hash-differs-between-identical-dumps', {'first': hashes[0][0], 'second': hashes[1][0]})
+    if hashes[0][1] != hashes[1][1] and opts['format'] != 'excel':       # (for xlsx: follows from the resource hashes, see above)
         raise Violation('package-hash-differs-between-identical-dumps', {'first': hashes[0][1], 'second': hashes[1][1]})
     nonascii = any(isinstance(v, str) and any(ord(ch) > 127 for ch in v) for r in pkg for row in r['rows'] for v in row.values())
     empty = any(not r['rows'] for r in pkg)
